@@ -8,6 +8,7 @@ import Dbg.Driver.C17
 import Dbg.Driver.C13
 import Dbg.Driver.C16
 import Dbg.Driver.C05
+import Dbg.Driver.C01
 /-! `dbgdriver`: one request per line on stdin (`<prop> <op> <args…>\t<implementation answer>`),
     one line per request on stdout (`<model answer>\t<verdict of holdsCxx on the implementation answer>`). -/
 open Drv
@@ -24,6 +25,8 @@ def dispatch (prop : String) (args : List String) (impl : String) : R Ans :=
   | "C13" => C13.handle args impl
   | "C16" => C16.handle args impl
   | "C05" => C05.handle args impl
+  | "C01" => C01.handle "C01" args impl
+  | "C02" => C01.handle "C02" args impl
   | "C12" => (match args with | "exts" :: _ => C13.handleExts args impl | _ => C13.handle args impl)
   | _ => throw s!"unknown-property:{prop}"
 
